@@ -358,7 +358,7 @@ func c14Exec(r *verdict.Run, cs c14Case) {
 
 func runC14(id string) int {
 	r := verdict.New(id, *tier, "exploration")
-	r.Rule = "exhaustive (value type x callback type) pairs for JSONResolver, TypeResolver, TypePredicatedResolver plus ToType per type; random callback lists (len 0..8, duplicates, mixed vocabularies), multi-valued type arrays, unknown type names, wrong-shaped constructor arguments; callbacks returning one of the unmatched errors of the library for values with a two-element type array whose second type has a callback too; non-trivial = a case in which a callback or predicate must be invoked; distinct by case"
+	r.Rule = "exhaustive (value type x callback type) pairs for JSONResolver, TypeResolver, TypePredicatedResolver plus ToType per type; random callback lists (len 0..8, duplicates, mixed vocabularies), multi-valued type arrays, unknown type names, wrong-shaped constructor arguments; every type under four context shapes that give its vocabulary an alias (the alias alone, after the bare vocabulary, followed by the bare vocabulary under the same and under the other http / https spelling), written alias:Name and bare; callbacks returning one of the unmatched errors of the library for values with a two-element type array whose second type has a callback too; non-trivial = a case in which a callback or predicate must be invoked; distinct by case"
 	r.Assumptions = []string{"callbacks are built with reflect.MakeFunc; their func type is identical to the hand-written func(context.Context, vocab.X) error"}
 	if *replay != "" {
 		var cs c14Case
